@@ -346,14 +346,31 @@ func (in *c24Inst) enabled(cfg []c24Agg) []c24Event {
 
 type c24Finding struct{ key, desc string }
 
-// c24Runs: the commitments/responses classes are read by expiry only; every
-// other event is enumerated with all proposals in the first class.
+// c24Runs shrinks the alphabet where a dimension is not read by the code under
+// the event: the commitments/responses classes are read by expiry only, so every
+// other event is enumerated with all proposals in the first class; timestamps
+// are read by expiry and by the announcement guard only, so retry / reset /
+// overflow / cutoff are enumerated with one age (the first) for every proposal
+// that shares no transaction with another one (for sharing proposals the ages
+// decide who owns the shared transaction and all admitted combinations stay).
 func c24Runs(cfg []c24Agg, e c24Event) bool {
 	if e.kind == "expire" {
 		return true
 	}
-	for _, a := range cfg {
+	for k, a := range cfg {
 		if a.comp != 0 {
+			return false
+		}
+		if e.kind == "defer-dup" || a.age == 0 {
+			continue
+		}
+		shares := false
+		for j, b := range cfg {
+			if j != k && a.set&b.set != 0 {
+				shares = true
+			}
+		}
+		if !shares {
 			return false
 		}
 	}
@@ -674,6 +691,7 @@ func TestMC_C24(t *testing.T) {
 		// times every state assignment of the transactions it references
 		configs = c24Configs(tier)
 		var planned int64
+		perKind := map[string]int64{}
 		for _, cfg := range configs {
 			var union uint8
 			for _, a := range cfg {
@@ -693,9 +711,11 @@ func TestMC_C24(t *testing.T) {
 					k *= int64(tier.states)
 				}
 				planned += k
+				perKind[e.kind] += k
 			}
 		}
 		c.Set("single_event_cases_planned", planned)
+		c.Set("single_event_cases_planned_per_event", perKind)
 		plannedCases = planned
 		in.close()
 		c.Require(in.base >= 2 && in.base+2 <= n, "threshold %d of %d nodes leaves no room for the completion classes", in.base, n)
